@@ -52,6 +52,7 @@ JET_A = {'name': 'Jet-A', 'energy_MJ_per_kg': 43.2, 'EI_H2O': 1233.3865, 'EI_CO2
 SAF = {'name': 'SAF', 'energy_MJ_per_kg': 44.1, 'EI_H2O': 1356.72515, 'EI_CO2': 3155.6,
        'non_volatile_carbon_fraction': 0.95, 'lifecycle_CO2': None, 'fuel_sulfur_content_nom': 0.0,
        'sulfate_yield_nom': 0.0}
+FLIGHT_NAMES = ['simulated', 'synthetic']
 ENVS = [{'apu': a, 'lifecycle_data': l} for a in ('running', 'unknown', 'none') for l in (True, False)]
 
 
@@ -119,6 +120,34 @@ def synthetic_flight():
             'apu': {'kind': 'Test APU', 'fuel_kg_per_s': 0.03, 'PM10_g_per_kg': 0.4, 'NOx_g_per_kg': 0.05,
                     'HC_g_per_kg': 0.02, 'CO_g_per_kg': 0.03},
             'class': 'wide'}
+
+
+def shape_flights():
+    """the synthetic flight's engine / APU / class on each deliberate trajectory shape of harness/c01.py"""
+    base = synthetic_flight()
+    return [(name, {**base, 'traj': traj}) for name, traj in c01.shape_trajectories()]
+
+
+def all_flights():
+    fl = [('simulated', simulated_flight()), ('synthetic', synthetic_flight())] + \
+        [('shape:' + n, f) for n, f in shape_flights()]
+    sim = simulated_flight()
+    n = len(sim['traj']['fuel_mass'])
+    fl.append(('shape:simulated-empty-window', {**sim, 'traj': {**sim['traj'], 'n_climb': n // 2, 'n_descent': n - n // 2}}))
+    return [n for n, _ in fl], [f for _, f in fl]
+
+
+METHOD_FIELDS = ['climb_descent_mode', 'nox_method', 'hc_method', 'co_method', 'pmvol_method', 'pmnvol_method']
+
+
+def method_pairwise(rng):
+    """every pair of values of the accounting mode and the five method options, on a random background"""
+    out = []
+    for f1, f2 in itertools.combinations(METHOD_FIELDS, 2):
+        for v1 in OPTIONS[f1]:
+            for v2 in OPTIONS[f2]:
+                out.append({**c01.gen_config(rng), f1: v1, f2: v2})
+    return out
 
 
 def make_case(flight, cfg, env):
@@ -339,7 +368,7 @@ def check_triples(chk: Check, state, flights, triples, parallel=False):
     exprs = [coq_outcome_expr(state, cfg, env) for _, cfg, env in triples]
     models = chk.coq_eval(HEADER, exprs, shard=2000, label='outcomes')
     for (fi, cfg, env), o, m in zip(triples, outs, models):
-        case_small = {'flight': 'simulated' if fi == 0 else 'synthetic', 'cfg': cfg, 'env': env}
+        case_small = {'flight': FLIGHT_NAMES[fi], 'cfg': cfg, 'env': env}
         chk.case(case_small, nontrivial=(cfg != c01.DEFAULT_CFG))
         chk.count('outcome:' + o['kind'] + (':' + str(o.get('name') or o.get('type')) if o['kind'] != 'value' else ''))
         chk.count('env:apu-' + env['apu'])
@@ -368,7 +397,7 @@ def load_corpus(chk):
 def run(chk: Check):
     chk.rule = ('configurations of the 13 documented options x environments (APU running / unknown APU with zero fuel flow / '
                 'no APU; fuel with / without a life-cycle datum) on one simulated trajectory (LegacyBuilder, sample '
-                'performance model, BOS-LAX) and one synthetic 6-point trajectory; quick = pairwise-covering set (every '
+                'performance model, BOS-LAX) and one synthetic 6-point trajectory, plus 18 deliberate trajectory shapes (empty / one-point accounting window, n_climb = 0, n_descent = 0, 1-3 points, zero-burn, the simulated flight with an empty window) crossed pairwise with the accounting mode and every method value; quick = pairwise-covering set (every '
                 'pair of option values, on the default and on a random background) + 1500 random configurations; thorough '
                 '= the complete 41 472 product; plus history runs: 3-4 consecutive calls in one process on the same flight / engine '
                 'that differ only in the fuel, the APU, or one option flipped and flipped back; non-trivial = not the default configuration')
@@ -384,10 +413,11 @@ def run(chk: Check):
     state = c01.tree_state()
     chk.notes['tree_state'] = {k: ('defect present' if v else 'repaired') for k, v in state.items()}
     extract(chk, state)
-    flights = [simulated_flight(), synthetic_flight()]
+    global FLIGHT_NAMES
+    FLIGHT_NAMES, flights = all_flights()
     rng = chk.rng
     triples = []
-    names = {'simulated': 0, 'synthetic': 1}
+    names = {n: i for i, n in enumerate(FLIGHT_NAMES)}
     for fl, cfg, env in load_corpus(chk):
         triples.append((names[fl], cfg, env))
     if chk.tier == 'thorough':
@@ -406,6 +436,18 @@ def run(chk: Check):
                 if key not in seen:
                     seen.add(key)
                     triples.append((fi, cfg, env))
+    # deliberate trajectory shapes x (accounting mode, every method value) pairwise; lto accounting forced on half
+    for fi in range(2, len(flights)):
+        for k, cfg in enumerate(method_pairwise(rng)):
+            if k % 2 == 0:
+                cfg = {**cfg, 'climb_descent_mode': 'lto'} if 'lto' != cfg['climb_descent_mode'] and rng.random() < 0.5 else cfg
+            if chk.tier != 'thorough' and k % 3 == (fi % 3) and cfg['climb_descent_mode'] != 'lto':
+                continue
+            triples.append((fi, cfg, ENVS[0] if rng.random() < 0.6 else rng.choice(ENVS)))
+        for pn in OPTIONS['pmnvol_method']:
+            for pv in OPTIONS['pmvol_method']:
+                triples.append((fi, {**c01.gen_config(rng), 'climb_descent_mode': 'lto', 'pmnvol_method': pn, 'pmvol_method': pv},
+                                rng.choice(ENVS)))
     triples += history_triples(rng, chk.n(250, 2500))
     chk.notes['configurations_distinct'] = len({cfg_key(c) for _, c, _ in triples})
     check_triples(chk, state, flights, triples, parallel=(chk.tier == 'thorough'))
@@ -417,5 +459,7 @@ def replay(chk: Check, rp):
     extract(chk, state)
     case = rp.get('case') or {}
     if 'cfg' in case:
-        flights = [simulated_flight(), synthetic_flight()]
-        check_triples(chk, state, flights, [(0 if case.get('flight') == 'simulated' else 1, case['cfg'], case['env'])])
+        global FLIGHT_NAMES
+        FLIGHT_NAMES, flights = all_flights()
+        fi = FLIGHT_NAMES.index(case['flight']) if case.get('flight') in FLIGHT_NAMES else 1
+        check_triples(chk, state, flights, [(fi, case['cfg'], case['env'])])
